@@ -468,6 +468,10 @@ class Project(MessageHandler):
             length = task.get("length", scIdx) or 0
             start = task.get("start", scIdx)
             end = task.get("end", scIdx)
+            if start and not task.provided("start", scIdx):
+                # Inherited from a dated container: a lower bound for the main loop, not a
+                # date of this task (its dependencies still have to be honoured)
+                start = None
 
             # Implicit milestone: has start/end but no duration metrics
             is_implicit_milestone = (start or end) and effort == 0 and duration == 0 and length == 0
